@@ -234,6 +234,7 @@ def gen_history(cfg, ref, rng):
     faults = []
     ops_total = max(ref['ops'], 2)
     ops_per_save = max(2, ops_total // max(1, ref['n_saves']))
+    remaining = ops_total  # rough number of file-system ops the next segment still has to do
     for s in range(n_faults):
         r = rng.random()
         if r < 0.55:
@@ -243,9 +244,12 @@ def gen_history(cfg, ref, rng):
                 # after the first completed save, so that there is a checkpoint to resume from
                 at = rng.randrange(min(ref['first_save_done_at'], ops_total - 1), ops_total)
             else:
-                at = rng.randrange(0, ops_total)
+                # a resumed segment only has the rest of the work to do: keep the fault inside it, past its first save
+                lo = 0 if s == 0 else min(ops_per_save, max(1, remaining - 1))
+                at = rng.randrange(lo, max(lo + 1, remaining))
             tear = rng.choice([None, rng.random(), rng.random()])
             faults.append({'kind': 'kill', 'at_op': at, 'tear': tear})
+            remaining = max(ops_per_save + 2, remaining - at + ops_per_save)
         elif r < 0.63:
             faults.append({'kind': 'sigint', 'at': [rng.randrange(1, max(2, ref['delivery_points']))]})
         elif r < 0.70:
